@@ -5,6 +5,7 @@ import (
 	"fmt"
 	"os"
 	"sort"
+	"strings"
 
 	"verif/internal/core"
 	"verif/internal/rules"
@@ -33,6 +34,41 @@ func main() {
 			os.Exit(2)
 		}
 		os.Exit(core.Check(spec, *tier, os.Stdout))
+	case "check-all":
+		// dev helper (seed matrix): every claimed property in one process; rule results are computed once.
+		// Prints one line per property that does not exit 0, with the rules involved.
+		tier := "quick"
+		var ids []string
+		for id := range rules.Properties {
+			ids = append(ids, id)
+		}
+		sort.Strings(ids)
+		devnull, _ := os.OpenFile(os.DevNull, os.O_WRONLY, 0)
+		tmp, _ := os.CreateTemp("", "vstatic-all")
+		defer os.Remove(tmp.Name())
+		worst := 0
+		for _, id := range ids {
+			tmp.Truncate(0)
+			tmp.Seek(0, 0)
+			rc := core.Check(rules.Properties[id], tier, tmp)
+			if rc != 0 {
+				if rc > worst {
+					worst = rc
+				}
+				b, _ := os.ReadFile(tmp.Name())
+				fmt.Printf("FIRED %s exit=%d\n", id, rc)
+				for _, l := range strings.Split(string(b), "\n") {
+					if strings.HasPrefix(l, "VIOLATED") || strings.HasPrefix(l, "UNDECIDED") || strings.HasPrefix(l, "ANALYSIS-FAILURE") || strings.HasPrefix(l, "    key=") {
+						if len(l) > 240 {
+							l = l[:240]
+						}
+						fmt.Println("  " + l)
+					}
+				}
+			}
+		}
+		_ = devnull
+		os.Exit(worst)
 	case "rule":
 		fs := flag.NewFlagSet("rule", flag.ExitOnError)
 		arch := fs.String("arch", "amd64", "GOARCH")
